@@ -45,3 +45,7 @@ def replay_get_address(p):
     got = f.header._get_address(pos); e = sp.first_odd(a, pos, n) if pos < n else n
     exp = a[pos:e + 1] if pos < n and e < n else None
     return {"violated": got != exp, "detail": f"_get_address({pos}) on {a.hex()} -> {got!r}, contract {exp!r}"}
+def replay_read_next(p):
+    from props import hdlc_rt; return hdlc_rt.replay_read_next(p)
+def replay_read(p):
+    from props import hdlc_rt; return hdlc_rt.replay_read(p)
